@@ -546,6 +546,15 @@ func (tr *FnTrans) load(h *Heap, addr string, t types.Type, guard string, quiet 
 	term := fmt.Sprintf("(select %s %s)", hterm, addr)
 	tr.frameInstances(hterm, addr)
 	tr.existingObjectFacts(hterm, addr, t)
+	if c := h.asOfCounter(); c != "" && !strings.Contains(addr, "%%") {
+		// the state right after a call: whatever pointer memory holds was allocated before that moment
+		switch t.Underlying().(type) {
+		case *types.Pointer, *types.Map, *types.Chan:
+			tr.assume("true", fmt.Sprintf("(< (rootloc %s) %s)", term, c), "pointer in memory right after a call refers to an object allocated before that moment")
+		case *types.Slice:
+			tr.assume("true", fmt.Sprintf("(< (rootloc (sbase %s)) %s)", term, c), "pointer in memory right after a call refers to an object allocated before that moment")
+		}
+	}
 	if !quiet && needsWF(t, 0) {
 		if _, isInt := t.Underlying().(*types.Basic); !isInt || tr.smt.intMode || isStringType(t) {
 			n := tr.smt.define("ld", srt, term)
